@@ -33,14 +33,14 @@ func (t *TargetHasher) SetTargetChangeHash(target *model.Target) error {
 
 	// Collect the OutputHash values of all dependencies (aliases resolved to their actual targets)
 	dependencies := t.graph.GetTargetDependencies(target)
-	dependencyHashes := make([]string, 0, len(dependencies))
+	dependencyHashes := make(map[string]string, len(dependencies))
 	for _, targetDependency := range dependencies {
 		outputHash := targetDependency.OutputHash
 		if outputHash == "" {
 			return fmt.Errorf("dependency %s of %s has no output hash", targetDependency.Label, target.Label)
 		}
 
-		dependencyHashes = append(dependencyHashes, outputHash)
+		dependencyHashes[targetDependency.Label.String()] = outputHash
 	}
 
 	changeHash, err := GetTargetChangeHash(*target, dependencyHashes)
